@@ -41,7 +41,8 @@ pub struct C12Case {
     pub acts: Vec<Act>,
     pub reopen_before_probe: bool,
     /// Attempt changesets whose base root is current again only because an intervening commit was
-    /// rolled back (known finding KF-C12-1). Always false in generated cases.
+    /// rolled back (either outcome permitted, must be exact). Was false while KF-C12-1 was open; true in
+    /// generated cases since its repair (FX-C12-2).
     #[serde(default)]
     pub allow_gray: bool,
 }
@@ -170,8 +171,10 @@ fn run_case<H: HK>(case: &C12Case, ctx: &Ctx) -> Result<CaseInfo, Violation> {
                     continue;
                 }
                 let valid = [changes[ia].base_root == cur_root, changes[ib].base_root == cur_root];
-                if (valid[0] || valid[1]) && intervening && !case.allow_gray {
-                    info.bump("excluded_kf_c12_1_gray_zone_attempts");
+                if (valid[0] || valid[1]) && intervening {
+                    // gray zone (base root current again only because something was committed and undone): either
+                    // outcome is permitted per changeset, which the two-order model below does not express
+                    info.bump("concurrent_pairs_skipped_in_gray_zone");
                     continue;
                 }
                 let pa = changes[ia].prepared.take().unwrap();
@@ -263,7 +266,7 @@ fn run_case<H: HK>(case: &C12Case, ctx: &Ctx) -> Result<CaseInfo, Violation> {
                 let valid = changes[ci].base_root == cur_root;
                 let gray = valid && intervening;
                 if gray && !case.allow_gray {
-                    // excluded by construction (known finding KF-C12-1), counted
+                    // only when a replay file asks for it (allow_gray = false)
                     changes[ci].prepared = Some(prep);
                     info.bump("excluded_kf_c12_1_gray_zone_attempts");
                     continue;
@@ -444,7 +447,7 @@ impl Check for C12 {
             ),
             any::<bool>(),
         )
-            .prop_map(|(base, changes, acts, reopen_before_probe)| C12Case { base, changes, acts, reopen_before_probe, allow_gray: false })
+            .prop_map(|(base, changes, acts, reopen_before_probe)| C12Case { base, changes, acts, reopen_before_probe, allow_gray: true })
             .boxed()
     }
     fn run(case: &C12Case, ctx: &Ctx) -> Result<CaseInfo, Violation> {
